@@ -26,19 +26,31 @@ META = dict(
                "shared broker (async_shared_broker.task) is foreign whatever default_broker() says - sends of shared tasks "
                "go through the default broker, their schedule labels do not become that broker's. "
                "Broker middlewares are not in the model (C10). prepare_label is a Section variable (C09). "
+               "'With the schedule's labels': labels whose declared value is a bool / int / float / str / bytes arrive (after the "
+               "worker's parse_labels) with that value and that type; a value of any other type travels as text and only has to be "
+               "the text prepare_label gives for that value in a process that has sent nothing before - whatever was sent earlier in "
+               "the process must not show in a later scheduled message. "
                "'The schedule's arguments' of a sent message = what the broker's own formatter decodes from it, compared with the "
                "JSON form of the schedule's args / kwargs (pydantic's mode='json', asked of pydantic directly; the identity on "
                "None / bool / int / float / str / list / dict); the order in which a set is written out is not demanded; with a "
                "serializer that carries Python objects (pickle) the values themselves arriving is accepted as well.",
-    rule="case = on_ready scenario (payload, callback kinds, outcomes) or label-source history (global+local registries "
+    rule="case = on_ready scenario (payload, callback kinds, outcomes), history of 2-5 sends in one process (on_ready firings and "
+         "unscheduled kiq sends on one or two brokers, label values drawn from pools of hash-equal values of different types: "
+         "True / 1 / 1.0 / Decimal / Fraction / IntEnum member, 0.0 / -0.0, str / bytes of one text, equally spelled values) "
+         "or label-source history (global+local registries "
          "with foreign tasks of another broker object / of a shared broker before and after default_broker() / hidden in "
          "another broker's local registry, listing/firing operations); non-trivial iff >= 2 entries share a task or a time, or a callback cancels / raises / "
          "is not a plain sync def (async def, or a def returning a Future / Task / __await__ object / gather / shield / "
-         "executor future / generator-based coroutine), or args / kwargs hold a value that is not a JSON native (date, UUID, "
-         "enum member, Decimal, set, bytes, nested model / dataclass ...); distinct by canonical JSON of the case",
+         "executor future / generator-based coroutine), or a history has >= 2 firings, or args / kwargs hold a value that is not a JSON native (date, UUID, "
+         "enum member, Decimal, set, bytes, nested model / dataclass ...); distinct by canonical JSON of the case; every case runs in "
+         "a process image of its own (forked from the freshly imported driver), so a case is its own replay",
     trusted_base=["model: coq/theories/SchedSource.v (hand-written transcription of scheduler.py, kicker.py message preparation, "
                   "label_based.py, AsyncBroker.get_all_tasks)",
-                  "taskiq.labels.prepare_label supplies the expected wire form of each label value (Section variable `prepare`)",
+                  "taskiq.labels.prepare_label supplies the expected wire form of each label value (Section variable `prepare`): the "
+                  "file taskiq/labels.py of the tree under test executed into a module namespace of its own for every single value, "
+                  "so the expectation knows nothing of the sends made before (C09 decides whether that function is right); independently of "
+                  "it the oracle demands that bool / int / float / str / bytes labels, parsed by TaskiqMessage.parse_labels, are the "
+                  "schedule's values with the schedule's types",
                   "datetime -> number mapping in harness/props/C16.py (naive 2*us, aware 2*instant+1)",
                   "pydantic (TypeAdapter(Any).dump_python(mode='json'), called by the driver, not through taskiq) supplies the "
                   "expected decoded form of args / kwargs that are not JSON natives; the model carries args / kwargs opaquely"],
@@ -159,7 +171,29 @@ def kick_matches(m, sched_task, sched_args, sched_kwargs, expect_labels, sid):
             and m["bm_labels"].get("schedule_id") == sid)
 
 
-def fire_oracle(pre, kick_ok, sid, task, args, kwargs, expect_labels, effs):
+def wire_scalar(v):
+    """canonical form (the driver's canon) of a label value of one of the five types labels keep on the wire: bool, int, str
+    natively, float as {"__float__": hex}, bytes as {"__bytes__": hex}"""
+    return isinstance(v, (bool, int, str)) or (isinstance(v, dict) and len(v) == 1 and next(iter(v)) in ("__float__", "__bytes__"))
+
+
+def labels_arrive(m, decl_labels, sid):
+    """The schedule's labels, value AND type: every label the schedule declares with a bool / int / float / str / bytes value
+    is, in the one message sent - parsed the way the worker parses a received message (TaskiqMessage.parse_labels) - that
+    very value with that very type (True is not 1 is not 1.0; 0.0 is not -0.0), and schedule_id is the schedule's id.  Values
+    of other types (None, Decimal, enum members, lists ...) travel as text; for them only the wire form is compared
+    (kick_matches, against prepare_label of the value alone)."""
+    if decl_labels is None or "seen" not in m:
+        return True
+    seen = m["seen"]
+    want = dict(decl_labels)
+    want["schedule_id"] = sid
+    if not isinstance(seen, dict) or "__error__" in seen:
+        return False
+    return all(k in seen and C.canon(seen[k]) == C.canon(v) for k, v in want.items() if wire_scalar(v))
+
+
+def fire_oracle(pre, kick_ok, sid, task, args, kwargs, expect_labels, effs, decl_labels=None):
     """None if the statement holds on this observed effect list, else a description.
     effs: [pre.begin, sid] pre_send called, [pre, sid] its work completed (it then returns / raises), [kick, m],
     [post.begin, sid] / [post, sid] likewise, [ret] on_ready returned; entries after [ret] happened too late."""
@@ -181,6 +215,8 @@ def fire_oracle(pre, kick_ok, sid, task, args, kwargs, expect_labels, effs):
         return "%d messages sent instead of exactly one" % len(kicks)
     if not kick_matches(kicks[0][1], task, args, kwargs, expect_labels, sid):
         return "sent message differs from the schedule (task name / args / kwargs / labels + schedule_id)"
+    if not labels_arrive(kicks[0][1], decl_labels, sid):
+        return "a label of the sent message does not arrive with the value and type the schedule declares"
     if kick_ok:
         if [e for e in rest if e[0] != "ret"] != [kicks[0], ["post.begin", sid], ["post", sid]]:
             return "post_send did not run exactly once after the send"
@@ -232,7 +268,7 @@ def label_oracle(c, obs, rep):
             # wire_args / wire_kwargs: JSON form of the schedule's args / kwargs (pydantic's, computed by the driver without
             # taskiq; the identity on JSON natives) - what a decoded message holds
             bad = fire_oracle("ok", True, s["sid"], s["task"], o.get("wire_args", s["args"]), o.get("wire_kwargs", s["kwargs"]),
-                              o["expect_labels"], o["effects"])
+                              o["expect_labels"], o["effects"], o.get("decl_labels"))
             if bad:
                 return bad, k
             pure = s["cron"] is None and s["time"] is not None
@@ -629,6 +665,138 @@ def deployment(r, c, task):
             t["via"] = "task"
 
 
+# ---- histories of sends in one process whose label values are hash-equal but of different types (round 10)
+def F(x):
+    return {"__float__": float(x).hex()}
+
+
+# Each pool: values that are == and hash-equal to one another (so anything keyed by the VALUE - a dict, an lru_cache, a set -
+# takes them for one key) although their type, or their text, differs.  Tagged the way the driver's dec / canon code them
+# (canon(dec(v)) == v for every member - checked by selfcheck_pools).  "spelled" is the neighbour: values whose str() is
+# equal (anything keyed by the wire TEXT confuses them); "text": str / bytes / str-mixin enum member of one text (str and
+# bytes of one ASCII text have one hash in CPython).
+HASH_POOLS = {
+    "one": [True, 1, F(1.0), {"__dec__": "1"}, {"__dec__": "1.0"}, {"__dec__": "1.00"}, {"__frac__": [1, 1]}, {"__enum__": ["Sw", "ON"]},
+            True, F(1.0)],
+    "zero": [False, 0, F(0.0), F(-0.0), {"__dec__": "0"}, {"__dec__": "-0"}, {"__dec__": "0.0"}, {"__frac__": [0, 1]},
+             {"__enum__": ["Sw", "OFF"]}, {"__enum__": ["Prio", "P0"]}, False, F(0.0), F(-0.0)],
+    "two": [2, F(2.0), {"__dec__": "2"}, {"__dec__": "2.0"}, {"__frac__": [2, 1]}, {"__enum__": ["Prio", "P2"]}],
+    "half": [F(.5), {"__dec__": "0.5"}, {"__dec__": "0.50"}, {"__frac__": [1, 2]}],
+    "big": [2**53, F(2.0**53), {"__dec__": str(2**53)}, {"__dec__": "9007199254740992.0"}, {"__frac__": [2**53, 1]}],
+    "text": ["a", {"__bytes__": b"a".hex()}, {"__enum__": ["Kind", "A"]}],
+    "nested": [{"__tuple__": [1]}, {"__tuple__": [True]}, {"__tuple__": [F(1.0)]}, {"__fset__": [1]}, {"__fset__": [True]},
+               {"__fset__": [F(1.0)]}, {"__tuple__": [0, "a"]}, {"__tuple__": [False, "a"]}],
+    "spelled": ["1", 1, "True", True, "None", None, "1.0", F(1.0), {"__bytes__": b"1".hex()}, {"__dec__": "1"}],
+}
+TASK_KEYS = ["retry_on_error", "prio", "ratio"]
+ENTRY_KEYS = ["delay", "w", "ratio"]
+
+
+def vtype(v):
+    """type name of a tagged label value (evidence only)"""
+    if isinstance(v, dict) and len(v) == 1:
+        k = next(iter(v))
+        return {"__float__": "float", "__dec__": "Decimal", "__frac__": "Fraction", "__enum__": "enum member", "__bytes__": "bytes",
+                "__tuple__": "tuple", "__fset__": "frozenset"}.get(k, k)
+    return "None" if v is None else type(v).__name__
+
+
+def pool_of(v):
+    k = C.canon(v)
+    return [n for n, vs in HASH_POOLS.items() if any(C.canon(x) == k for x in vs)]
+
+
+def gen_hist(r):
+    """a history of 2-5 sends in ONE process: on_ready firings (full scenarios - callback styles, outcomes, payloads - as in
+    gen_fire) and now and then a send that is not scheduled (task.kicker().with_labels(..).kiq()), on one or two brokers;
+    the label values of all steps come from one or two pools of hash-equal values, under a small pool of keys"""
+    nb = 1 if r.random() < .7 else 2
+    brokers = [(gen_broker(r) if r.random() < .2 else {}) for _ in range(nb)]
+    cls = r.sample(sorted(HASH_POOLS), r.choice([1, 1, 2]))
+    val = lambda: r.choice(HASH_POOLS[r.choice(cls)])   # noqa: E731
+    keys = r.sample(TASK_KEYS + ENTRY_KEYS[:2], r.choice([1, 2, 2, 3]))
+    steps, fires = [], []
+    n = r.choice([2, 2, 3, 3, 4, 5])
+    while len(steps) < n or len(fires) < 2:
+        k = len(steps)
+        on = r.randrange(nb)
+        if r.random() < .2:
+            st = dict(do="kiq", on=on, task=r.choice(["k0", "k1", "t0"]), decl={x: val() for x in r.sample(keys, r.randint(0, len(keys)))},
+                      args=[a for a in gen_args(r)[:2] if not isinstance(a, float)])
+            if r.random() < .5:
+                st["with"] = {x: val() for x in r.sample(keys, r.randint(1, len(keys)))}
+            steps.append(st)
+            continue
+        st = gen_fire(r)
+        del st["type"]
+        st.pop("broker", None)
+        st["do"], st["on"] = "fire", on
+        if r.random() < .8:
+            st["pre"] = "ok"
+        if r.random() < .8:
+            st["kick_ok"] = True
+        labels = gen_labels(r, True, r.choice([0, 0, 1])) if r.random() < .3 else {}
+        labels.update({x: val() for x in r.sample(keys, r.randint(1, len(keys)))})
+        st["payload"]["labels"] = labels
+        st["sid"] = r.choice(["S1", "S2", "1", "True", "a", "0", "7f3a"])        # ids that spell a label value as well
+        if r.random() < .5:
+            st["sched"] = "reuse"
+        if fires and r.random() < .15:
+            j = r.choice(fires)                     # the very ScheduledTask object of an earlier step, fired again
+            st["same_as"], st["payload"], st["sid"] = j, json.loads(json.dumps(steps[j]["payload"])), steps[j]["sid"]
+        fires.append(k)
+        steps.append(st)
+    return dict(type="hist", brokers=brokers, pools=cls, steps=steps)
+
+
+def poolify(r, c):
+    """a label-source history whose task labels and entry labels come from one or two pools of hash-equal values, with
+    enough firings of different entries after the first listing that such values meet in one process"""
+    cls = r.sample(sorted(HASH_POOLS), r.choice([1, 1, 2]))
+    val = lambda: r.choice(HASH_POOLS[r.choice(cls)])   # noqa: E731
+    for t in c["globals"] + c["locals"] + c.get("hidden", []):
+        for k in r.sample(TASK_KEYS, r.choice([0, 1, 1, 2])):
+            t["labels"][k] = val()
+        for e in t["schedule"] or []:
+            if r.random() < .6:
+                e.setdefault("labels", {})
+                for k in r.sample(ENTRY_KEYS, r.choice([1, 1, 2])):
+                    e["labels"][k] = val()
+    js = list(range(r.randint(2, 5)))
+    r.shuffle(js)
+    at = 1 + [i for i, op in enumerate(c["ops"]) if op[0] == "list"][0]
+    c["ops"][at:at] = [["fire", 0, j] for j in js]
+    if c["ops"][-1][0] != "list":
+        c["ops"].append(["list"])
+    c["pools"] = cls
+    return c
+
+
+def selfcheck_pools():
+    """members of one pool are pairwise distinct as case values (so the evidence counts and the Coq interning tell them
+    apart) - their Python equality is the driver's business"""
+    for n, vs in HASH_POOLS.items():
+        assert len({C.canon(v) for v in vs}) >= 3, n
+
+
+def count_pools(rep, fam, label_dicts):
+    """label_dicts: the label values of the sends of one history, in order.  Counts the types met and the sends whose labels
+    hold a value hash-equal / equally spelled to, but not the same as, a value an earlier send of the process carried"""
+    earlier = {}
+    for labels in label_dicts:
+        hit = set()
+        for v in labels.values():
+            for n in pool_of(v):
+                if any(x != C.canon(v) for x in earlier.get(n, ())):
+                    hit.add(n)
+        for n in hit:
+            rep.count("%s:send with a label from pool %r that an earlier send of the process carried as another value" % (fam, n))
+        for v in labels.values():
+            for n in pool_of(v):
+                earlier.setdefault(n, set()).add(C.canon(v))
+                rep.count("%s:pooled label value type=%s" % (fam, vtype(v)))
+
+
 def own_of(c):
     own = {t["name"]: t["own"] for t in c["globals"]}
     own.update({t["name"]: True for t in c["locals"]})
@@ -722,6 +890,8 @@ def count_payload(rep, fam, c, payloads, info, sent):
 
 
 def nontrivial(c):
+    if c["type"] == "hist":
+        return sum(st["do"] == "fire" for st in c["steps"]) >= 2
     if c["type"] == "fire":
         return (c["pre"] != "ok" or style_of(c, "pre") != "sync" or style_of(c, "post") != "sync"
                 or is_rich(c["payload"]["args"]) or is_rich(c["payload"]["kwargs"]))
@@ -785,6 +955,51 @@ def lit_label(c, o):
                    c_view(obs[0]["view"], T), C.clist(ops))
 
 
+def hist_oracle(c, o):
+    """the statement, firing by firing: (description, step index) of the first firing of the history that breaks it"""
+    if len(o["steps"]) != len(c["steps"]):
+        return "the history was not run to its end", 0
+    for k, (st, x) in enumerate(zip(c["steps"], o["steps"])):
+        if st["do"] != "fire":
+            continue                     # a send that is not scheduled: nothing of this statement is demanded of it
+        p = st["payload"]
+        bad = fire_oracle(st["pre"], st["kick_ok"], st["sid"], p["task"], x["sched_args"], x["sched_kwargs"], x["expect_labels"],
+                          x["effects"], x.get("decl_labels"))
+        if bad:
+            return bad, k
+    return None, 0
+
+
+def count_hist(rep, c, o):
+    fires = [st for st in c["steps"] if st["do"] == "fire"]
+    rep.count("hist:sends in one process=%d (scheduled %d)" % (len(c["steps"]), len(fires)))
+    rep.count("hist:brokers=%d" % len(c["brokers"]))
+    for n in c.get("pools", []):
+        rep.count("hist:label values from the hash-equal pool %r" % n)
+    for st, x in zip(c["steps"], o["steps"]):
+        if st["do"] == "kiq":
+            rep.count("hist:send that is not scheduled (kicker%s), %s" % (
+                ".with_labels" if st.get("with") else "", "sent" if any(e[0] == "kick" for e in x["effects"]) else "not sent"))
+            continue
+        rep.count("hist:firing pre=%s result=%s" % (st["pre"], x["result"]))
+        if st.get("sched") == "reuse":
+            rep.count("hist:firing through the scheduler object of an earlier step")
+        if st.get("same_as") is not None:
+            rep.count("hist:the ScheduledTask object of an earlier step fired again")
+        for kind in ("pre", "post"):
+            if style_of(st, kind) not in ("sync", "async"):
+                rep.count("hist:%s non-coroutine awaitable" % kind)
+    sent = []
+    for st, x in zip(c["steps"], o["steps"]):
+        if st["do"] == "kiq":
+            sent.append(dict(st.get("decl") or {}, **(st.get("with") or {})))
+        elif any(e[0] == "kick" for e in x["effects"]):
+            sent.append(st["payload"]["labels"])
+        elif st["pre"] == "ok":
+            sent.append(st["payload"]["labels"])
+    count_pools(rep, "hist", sent)
+
+
 def explore(ctx, rep, cases, label):
     obs = C.run_driver(ctx, "source_driver", cases)
     fl, fk, ll, lk = [], [], [], []
@@ -792,6 +1007,22 @@ def explore(ctx, rep, cases, label):
         rep.case(c, nontrivial(c))
         if "_crash" in o:
             rep.fail("driver crashed", c, observed=o["_crash"])
+            continue
+        if c["type"] == "hist":
+            count_hist(rep, c, o)
+            bad, k = hist_oracle(c, o)
+            if bad:
+                rep.fail("in a history of sends in one process: " + bad, c, observed=o["steps"][k],
+                         expected="every firing, whatever was sent before it: pre_send; unless cancelled: one message = schedule + "
+                                  "schedule_id (labels with the schedule's values and types); post_send", sig=dict(step=k))
+            for st, x in zip(c["steps"], o["steps"]):
+                if st["do"] != "fire":
+                    continue
+                try:
+                    fl.append(lit_fire(st, x))
+                    fk.append(c)
+                except AssertionError as e:
+                    rep.fail("observation not encodable", c, observed=str(e))
             continue
         if c["type"] == "fire":
             rep.count("fire:pre=%s" % c["pre"])
@@ -816,7 +1047,7 @@ def explore(ctx, rep, cases, label):
             count_payload(rep, "fire", c, [[p["args"], p["kwargs"]]], c.get("rich", []),
                           c["pre"] == "ok" and any(e[0] == "kick" for e in o["effects"]))
             bad = fire_oracle(c["pre"], c["kick_ok"], c["sid"], p["task"], o["sched_args"], o["sched_kwargs"],
-                              o["expect_labels"], o["effects"])
+                              o["expect_labels"], o["effects"], o.get("decl_labels"))
             if bad:
                 rep.fail(bad, c, observed=o["effects"], expected="pre_send; unless cancelled: one message = schedule + schedule_id; post_send")
             try:
@@ -826,6 +1057,10 @@ def explore(ctx, rep, cases, label):
                 rep.fail("observation not encodable", c, observed=str(e))
         else:
             rep.count("label:cb_style=%s" % c.get("cb_style", "sync"))
+            if c.get("pools"):
+                for n in c["pools"]:
+                    rep.count("label:history with task / entry labels from the hash-equal pool %r" % n)
+                count_pools(rep, "label", [x.get("decl_labels") or {} for x in o["obs"] if x["op"] == "fire"])
             count_deployment(rep, c, o["obs"])
             fired = [[x["sched"]["args"], x["sched"]["kwargs"]] for x in o["obs"] if x["op"] == "fire"]
             count_payload(rep, "label", c, fired, c.get("rich", []), any(x["op"] == "fire" and is_rich([x["sched"]["args"], x["sched"]["kwargs"]])
@@ -852,11 +1087,21 @@ def explore(ctx, rep, cases, label):
     for lits, keep, body, name in ((fl, fk, BODY_FIRE, "on_ready"), (ll, lk, BODY_LABEL, "label_source")):
         if not lits:
             continue
-        bad, fails, _ = C.coq_eval(ctx, label + "_" + name, HEADER, lits, body, shard=250)
+        # at most 250 cases per coqc run, and about ten runs side by side when there are fewer than 2 500 cases (the label
+        # histories' literals are large: registry view after every operation)
+        bad, fails, _ = C.coq_eval(ctx, label + "_" + name, HEADER, lits, body, shard=max(60, min(250, -(-len(lits) // 10))))
         rep.corr(label + ":" + name, len(lits), bad, fails, lambda i, keep=keep: keep[i])
         rep.traces += len(lits) - len(bad)
         broken = broken or bool(bad or fails)
     return broken
+
+
+def spread(cases, extra):
+    """`extra` put into `cases` at even distances (their Coq literals are the largest: they share the shards evenly)"""
+    out, step = list(cases), max(1, len(cases) // (len(extra) + 1))
+    for i, c in enumerate(extra):
+        out.insert(min(len(out), (i + 1) * step + i), c)
+    return out
 
 
 def run(ctx):
@@ -871,10 +1116,17 @@ def run(ctx):
         explore(ctx, rep, corpus, "corpus")
     r = ctx.sub_rng("gen")
     cases = [gen_fire(r) for _ in range(ctx.n(600, 15000))] + [gen_label(r) for _ in range(ctx.n(900, 25000))]
+    # histories of sends in one process with hash-equal label values of different types: a stream of their own (the cases above
+    # are what they were), about a seventh of the whole
+    selfcheck_pools()
+    rh = ctx.sub_rng("hist")
+    cases += [gen_hist(rh) for _ in range(ctx.n(130, 4000))]
+    cases = spread(cases, [poolify(rh, gen_label(rh)) for _ in range(ctx.n(100, 3000))])
     broken = explore(ctx, rep, cases, "main")
     if (broken or any(not o["ok"] for o in rep.obligations)) and not rep.failures:
         r2 = ctx.sub_rng("search")
-        explore(ctx, rep, [gen_fire(r2) for _ in range(ctx.n(2000, 20000))] + [gen_label(r2) for _ in range(ctx.n(3000, 40000))],
+        explore(ctx, rep, [gen_fire(r2) for _ in range(ctx.n(2000, 20000))] + [gen_label(r2) for _ in range(ctx.n(3000, 40000))]
+                + [gen_hist(r2) for _ in range(ctx.n(400, 5000))] + [poolify(r2, gen_label(r2)) for _ in range(ctx.n(400, 5000))],
                 "search")
     return rep.finish()
 
@@ -891,13 +1143,19 @@ def replay(ctx, path):
     if c["type"] == "fire":
         p = c["payload"]
         bad = fire_oracle(c["pre"], c["kick_ok"], c["sid"], p["task"], o["sched_args"], o["sched_kwargs"], o["expect_labels"],
-                          o["effects"])
+                          o["effects"], o.get("decl_labels"))
+        lits = [lit_fire(c, o)]
+    elif c["type"] == "hist":
+        bad, k = hist_oracle(c, o)
+        if bad:
+            print("failing step %d: %s\nobserved: %s" % (k, json.dumps(c["steps"][k]), json.dumps(o["steps"][k])[:1500]))
+        lits = [lit_fire(st, x) for st, x in zip(c["steps"], o["steps"]) if st["do"] == "fire"]
     else:
         bad, k = label_oracle(c, o["obs"], C.Report(ctx, META))
         if bad:
             print("failing step %d: %s" % (k, json.dumps(o["obs"][k])[:1500]))
-    lit = lit_fire(c, o) if c["type"] == "fire" else lit_label(c, o)
-    mb, fails, _ = C.coq_eval(ctx, "replay", HEADER, [lit], BODY_FIRE if c["type"] == "fire" else BODY_LABEL)
+        lits = [lit_label(c, o)]
+    mb, fails, _ = C.coq_eval(ctx, "replay", HEADER, lits, BODY_LABEL if c["type"] == "label" else BODY_FIRE)
     print("model (coq/theories/SchedSource.v) agrees with the implementation on this input:", not mb and not fails)
     print("statement:", "holds" if not bad else "VIOLATED - " + bad)
     return 1 if bad else 0
